@@ -202,3 +202,16 @@ Theorem section_items_tree (sh : sheet) (pos : Z) :
 Proof.
   unfold section_forest, tree. apply sec_items. apply Forall_forall. intros x _. apply sec_item.
 Qed.
+
+(* select_item_css on the text of the sheet: the next / previous selector or declaration of the
+   sheet's layout tree with its full, value and value-token ranges (Level A spec next_forest / prev_forest) *)
+Theorem select_item_css_text (sh : sheet) (pos : Z) (is_prev : bool) :
+  wf_sheet sh = true ->
+  select_item_css (render sh) pos is_prev =
+  if is_prev then prev_forest (render sh) (tree sh) pos else next_forest (render sh) (tree sh) pos.
+Proof.
+  intros Hwf. unfold select_item_css, select_previous_item, select_next_item.
+  rewrite (scan_render sh Hwf). unfold events. destruct is_prev.
+  - apply (prev_tree _ _ _ _ (tree_wf sh)).
+  - apply (next_tree _ _ _ _ (tree_wf sh)).
+Qed.
